@@ -127,31 +127,51 @@ Theorem C17_suggest_keeps_validating : forall chk roas held limit store s,
         exists r', In r' (roas_held roas held limit) /\ r_pl r' <> r_pl r /\ matched (vrp_of r') (route_of a) = true).
 Proof. exact suggest_keeps_validating. Qed.
 
-(** The strong reading - after the suggested updates every announcement that is valid now stays valid - is
-    refuted by the model (candidate finding F17e): [10.0.0.0/22-24 => 64496] (too permissive) plus
-    [10.0.0.0/24-24 => 64496] (redundant) with the announcement [10.0.0.0/24 => 64496]. *)
-Theorem C17_suggest_preserves_validity_refuted :
+(** The strong reading: after the suggested updates (removals: stale, too-permissive currents, AS0-redundant,
+    redundant; additions: replacements, not-found, invalid; removals first) every announcement that is valid now is
+    still valid. Proved for the repaired [suggest] (/repo 992adfab) for every announcement that is not validated
+    through None/Some(len) twin payloads ([twin_match], F17b), in particular whenever the held ROAs have explicit
+    maximum lengths, as a krill CA stores them. *)
+Theorem C17_suggest_preserves_validity : forall chk roas held limit store s,
+  suggest chk roas held limit (Some store) = Some s ->
+  wf_scope (scope_of held limit) -> wf_store store -> wf_roas roas ->
+  let hr := roas_held roas held limit in
+  forall a, In a store -> in_scope (scope_of held limit) a ->
+    rov (map vrp_of hr) (route_of a) = Valid -> twin_match hr a = false ->
+    rov (map vrp_of_payload (config_after hr s)) (route_of a) = Valid.
+Proof. exact suggest_preserves_validity. Qed.
+
+Theorem C17_suggest_preserves_validity_explicit : forall chk roas held limit store s,
+  suggest chk roas held limit (Some store) = Some s ->
+  wf_scope (scope_of held limit) -> wf_store store -> wf_roas roas ->
+  explicit_maxb (roas_held roas held limit) = true ->
+  forall a, In a store -> in_scope (scope_of held limit) a ->
+    rov (map vrp_of (roas_held roas held limit)) (route_of a) = Valid ->
+    rov (map vrp_of_payload (config_after (roas_held roas held limit) s)) (route_of a) = Valid.
+Proof. exact suggest_preserves_validity_explicit. Qed.
+
+(** Without the hypothesis it is false also for the repaired code (F17b): [10.0.0.0/24 => 64496] and
+    [10.0.0.0/24-24 => 64496] are each reported redundant because of the other. *)
+Theorem C17_suggest_preserves_validity_unconditional_refuted :
   ~ (forall roas held limit store s,
       suggest true roas held limit (Some store) = Some s ->
+      wf_scope (scope_of held limit) -> wf_store store -> wf_roas roas ->
+      forall a, In a store -> in_scope (scope_of held limit) a ->
+        rov (map vrp_of (roas_held roas held limit)) (route_of a) = Valid ->
+        rov (map vrp_of_payload (config_after (roas_held roas held limit) s)) (route_of a) = Valid).
+Proof. exact suggest_preserves_validity_unconditional_refuted. Qed.
+
+(** Regression witness for F17e: the code before 992adfab ([suggest_pinned]: every announcement authorised by any
+    other entry is left out of a replacement) refutes the strong reading with [10.0.0.0/22-24 => 64496]
+    (too permissive) plus [10.0.0.0/24-24 => 64496] (redundant) and the announcement [10.0.0.0/24 => 64496]. *)
+Theorem C17_suggest_preserves_validity_refuted :
+  ~ (forall roas held limit store s,
+      suggest_pinned true roas held limit (Some store) = Some s ->
       wf_scope (scope_of held limit) -> wf_store store -> wf_roas roas ->
       forall a, In a store -> in_scope (scope_of held limit) a -> a_asn a <> 0 ->
         rov (map vrp_of (roas_held roas held limit)) (route_of a) = Valid ->
         rov (map vrp_of_payload (config_after (roas_held roas held limit) s)) (route_of a) = Valid).
 Proof. exact suggest_preserves_validity_refuted. Qed.
-
-(** The strongest restriction of it that holds: with explicit maximum lengths (as a krill CA stores them) and no
-    "too permissive" ROA among those validating the announcement, a validating ROA is kept and survives the updates. *)
-Theorem C17_suggest_preserves_validity_restricted : forall chk roas held limit store s,
-  suggest chk roas held limit (Some store) = Some s ->
-  wf_scope (scope_of held limit) -> wf_store store -> wf_roas roas ->
-  let hr := roas_held roas held limit in
-  explicit_max hr ->
-  forall a, In a store -> in_scope (scope_of held limit) a ->
-    rov (map vrp_of hr) (route_of a) = Valid ->
-    (forall r, In r (map fst (s_too_permissive s)) -> matched (vrp_of r) (route_of a) = false) ->
-    (exists r, In r (s_keep s) /\ matched (vrp_of r) (route_of a) = true)
-    /\ rov (map vrp_of_payload (config_after hr s)) (route_of a) = Valid.
-Proof. exact suggest_preserves_validity_restricted. Qed.
 
 (** Partiality: no panic for ROAs with [len <= max] and [max - len < 128]; never without overflow checks;
     the family-valid IPv6 [::/0-128] does panic in a checked build (candidate finding F17d); a report can always
@@ -171,7 +191,7 @@ Theorem C17_analyse_total_refuted :
 Proof. exact analyse_total_refuted. Qed.
 
 Theorem C17_suggest_total : forall chk roas held limit seen es,
-  analyse chk roas held limit seen = Some es -> suggest_of_entries es <> None.
+  analyse chk roas held limit seen = Some es -> suggest_of_entries (report_sort es) <> None.
 Proof. exact suggest_total. Qed.
 
 (** The announcement store. [Trie.v] models the path-compressed prefix tree of [RouteOriginCollection]
@@ -218,7 +238,9 @@ Print Assumptions C17_disallows_exact.
 Print Assumptions C17_as0_disallows_exact.
 Print Assumptions C17_suggest_keeps_validating.
 Print Assumptions C17_suggest_preserves_validity_refuted.
-Print Assumptions C17_suggest_preserves_validity_restricted.
+Print Assumptions C17_suggest_preserves_validity.
+Print Assumptions C17_suggest_preserves_validity_explicit.
+Print Assumptions C17_suggest_preserves_validity_unconditional_refuted.
 Print Assumptions C17_analyse_no_panic.
 Print Assumptions C17_analyse_release_total.
 Print Assumptions C17_analyse_total_refuted.
